@@ -345,7 +345,7 @@ Proof. unfold render_num. cbn [n_neg n_int n_frac n_exp]. rewrite app_assoc. ref
 Lemma double_fixup_shape fl n0 :
   g17_shape n0 -> (nozero fl = false \/ has_byte 101 (render_num n0) = false) ->
   exists n', num_ok n' = true /\ render_num n' = double_fixup fl (render_num n0) /\
-             dec_eq (num_val n') (num_val n0).
+             dec_eq (num_val n') (num_val n0) /\ (n_frac n' <> None \/ n_exp n' <> None).
 Proof.
   intros (Hok & Hup & Hlen & _) Hnz. destruct n0 as [neg i f e]. cbn [n_exp] in Hup.
   pose proof Hok as Hok'. apply num_ok_iff in Hok'. destruct Hok' as (O1 & O2 & O3 & O4).
@@ -382,7 +382,7 @@ Proof.
       cbn [render_exp] in *. rewrite app_nil_r in *.
       unfold nozero_trim, nozero_trim_with, nozero_span. rewrite app_nil_r.
       destruct (trim_zeros_spec fr Hfd Hfne) as (k & Hk & Htne & Htd).
-      exists (mknum neg i (Some (trim_zeros fr)) None). split; [|split].
+      exists (mknum neg i (Some (trim_zeros fr)) None). split; [|split; [|split; [|left; discriminate]]].
       * apply num_ok_iff. repeat split; auto. apply digits1_intro; assumption.
       * rewrite render_num_eq. fold sg. cbn [render_frac render_exp]. rewrite app_nil_r.
         cbv zeta. set (t := (sg ++ i) ++ 46 :: trim_zeros fr).
@@ -397,18 +397,18 @@ Proof.
         replace (Z.min (0 - L) (0 - (L + Z.of_nat k))) with (0 - (L + Z.of_nat k)) by lia.
         replace (0 - L - (0 - (L + Z.of_nat k))) with (Z.of_nat k) by lia.
         rewrite Z.sub_diag, Z.pow_0_r. destruct neg; lia.
-    + exists (mknum neg i (Some fr) e). split; [exact Hok|]. split; [|apply dec_eq_refl].
+    + exists (mknum neg i (Some fr) e). split; [exact Hok|]. split; [|split; [apply dec_eq_refl|left; discriminate]].
       rewrite render_num_eq. reflexivity.
   - (* no decimal point *)
     cbn [app] in *.
     rewrite (split_at_none 46) by (rewrite has_byte_app, (Hsg 46), (Hex 46) by (reflexivity || lia); reflexivity).
     rewrite Hlook, has_byte_app, (Hsg 101), He101 by (reflexivity || lia). cbn [andb orb].
     destruct e as [e'|]; cbn [negb].
-    + exists (mknum neg i None (Some e')). split; [exact Hok|]. split; [|apply dec_eq_refl].
+    + exists (mknum neg i None (Some e')). split; [exact Hok|]. split; [|split; [apply dec_eq_refl|right; discriminate]].
       rewrite render_num_eq. reflexivity.
     + (* an integer-looking text: ".0" is appended *)
       cbn [render_exp] in *. rewrite app_nil_r in *.
-      exists (mknum neg i (Some [48]) None). split; [|split].
+      exists (mknum neg i (Some [48]) None). split; [|split; [|split; [|left; discriminate]]].
       * apply num_ok_iff. repeat split; auto.
       * rewrite render_num_eq. reflexivity.
       * unfold dec_eq, num_val. cbn [fst snd n_neg n_int n_frac n_exp zlen]. rewrite digits_value_app. cbn [zlen].
@@ -641,7 +641,7 @@ Proof.
     + destruct Hn as (n & H1 & H2). exists (SNum n). cbn [stx_ok render value serialize]. repeat split; auto.
       apply (DDblText _ _ _ _ n); auto. destruct (num_val n). apply dec_eq_refl.
     + destruct Hn as (Hfin & Hnz). destruct (Hfmt b Hfin) as (n0 & Hshape & Hr).
-      rewrite <- Hr in Hnz. destruct (double_fixup_shape fl n0 Hshape Hnz) as (n' & H1 & H2 & H3).
+      rewrite <- Hr in Hnz. destruct (double_fixup_shape fl n0 Hshape Hnz) as (n' & H1 & H2 & H3 & _).
       exists (SNum n'). cbn [stx_ok render value serialize]. rewrite double_text_finite by exact Hfin.
       rewrite <- Hr. repeat split; auto. apply (DDbl _ _ _ n0); [apply Hshape|exact Hr|].
       destruct (num_val n'). exact H3.
@@ -897,7 +897,7 @@ Proof.
   destruct (Hfmt bits Hfin) as (n0 & Hshape & Hr). rewrite <- Hr in *.
   rewrite (double_fixup_flags fl n0 Hshape Hnz).
   rewrite (double_fixup_flags cfl n0 Hshape) by (left; reflexivity).
-  destruct (double_fixup_shape flags_plain n0 Hshape) as (n' & H1 & H2 & _); [left; reflexivity|].
+  destruct (double_fixup_shape flags_plain n0 Hshape) as (n' & H1 & H2 & _ & _); [left; reflexivity|].
   rewrite <- H2. apply sig_plain, num_plain, H1.
 Qed.
 
@@ -1419,7 +1419,306 @@ Qed.
 End Run.
 End RT.
 
+
+(* ---- the tokener model on a number token with a fraction and/or an exponent ---- *)
+Module RT2.
+Import TokModel.
+Import RT.
+
+Section RunD.
+Variable strtod : list byte -> Z.
+Local Opaque run.
+
+Definition TnumD (dbl : bool) (p : list byte) (off : Z) : tok :=
+  mktok [mksrec S_number S_start JNull None] 32 p dbl 0 0 0 0 false false false off TE_success.
+Definition lnD (c : byte) (ex ng ps : bool) (k : Z) : locals := mkloc c 0 JNull (Some (mknl ex ng ps k)).
+
+Lemma digitD c : 48 <= c <= 57 -> forall dbl ex ng ps p off c0 k rest,
+  run strtod (c :: rest) (TnumD dbl p off) (lnD c0 ex ng ps k) =
+  run strtod rest (TnumD dbl (p ++ [c]) (off + 1)) (lnD c ex false false (k + 1)).
+Proof.
+  intros Hc. apply (Forall_zrange (fun c => forall dbl ex ng ps p off c0 k rest,
+     run strtod (c :: rest) (TnumD dbl p off) (lnD c0 ex ng ps k) =
+     run strtod rest (TnumD dbl (p ++ [c]) (off + 1)) (lnD c ex false false (k + 1))) 10 48); [|lia].
+  change (zrange 48 10) with digits10. unfold digits10.
+  repeat (constructor; [intros dbl ex ng ps p off c0 k rest;
+     match goal with |- run _ (?d :: _) _ _ = _ =>
+       rewrite (run_step strtod d rest (TnumD dbl p off) (lnD c0 ex ng ps k) (TnumD dbl (p ++ [d]) off) (lnD d ex false false (k + 1)))
+         by (destruct dbl, ex, ng, ps; reflexivity) end; reflexivity|]).
+  constructor.
+Qed.
+Lemma digitsD ds : forallb digit ds = true -> forall dbl ex ng ps p off c0 k rest, ds <> [] ->
+  exists off' c0' k',
+  run strtod (ds ++ rest) (TnumD dbl p off) (lnD c0 ex ng ps k) =
+  run strtod rest (TnumD dbl (p ++ ds) off') (lnD c0' ex false false k').
+Proof.
+  induction ds as [|c ds IH]; intros H dbl ex ng ps p off c0 k rest Hne; [congruence|].
+  cbn [forallb] in H. apply andb_true_iff in H. destruct H as [Hc Hd]. unfold digit in Hc.
+  cbn [app]. rewrite digitD by lia. destruct ds as [|c2 ds'].
+  - exists (off + 1), c, (k + 1). reflexivity.
+  - destruct (IH Hd dbl ex false false (p ++ [c]) (off + 1) c (k + 1) rest ltac:(discriminate)) as (off' & c0' & k' & Hr).
+    exists off', c0', k'. rewrite Hr, <- app_assoc. reflexivity.
+Qed.
+Lemma dotD ex ng ps p off c0 k rest :
+  run strtod (46 :: rest) (TnumD false p off) (lnD c0 ex ng ps k) =
+  run strtod rest (TnumD true (p ++ [46]) (off + 1)) (lnD 46 ex true true (k + 1)).
+Proof.
+  rewrite (run_step strtod 46 rest _ (lnD c0 ex ng ps k) (TnumD true (p ++ [46]) off) (lnD 46 ex true true (k + 1)))
+    by (destruct ex, ng, ps; reflexivity). reflexivity.
+Qed.
+Lemma expD (up : bool) dbl ng ps p off c0 k rest :
+  run strtod ((if up then 69 else 101) :: rest) (TnumD dbl p off) (lnD c0 false ng ps k) =
+  run strtod rest (TnumD true (p ++ [if up then 69 else 101]) (off + 1)) (lnD (if up then 69 else 101) true true true (k + 1)).
+Proof.
+  rewrite (run_step strtod _ rest _ (lnD c0 false ng ps k) (TnumD true (p ++ [if up then 69 else 101]) off)
+             (lnD (if up then 69 else 101) true true true (k + 1)))
+    by (destruct up, dbl, ng, ps; reflexivity). reflexivity.
+Qed.
+Lemma signD (minus : bool) dbl p off c0 k rest :
+  run strtod ((if minus then 45 else 43) :: rest) (TnumD dbl p off) (lnD c0 true true true k) =
+  run strtod rest (TnumD dbl (p ++ [if minus then 45 else 43]) (off + 1)) (lnD (if minus then 45 else 43) true false false (k + 1)).
+Proof.
+  rewrite (run_step strtod _ rest _ (lnD c0 true true true k) (TnumD dbl (p ++ [if minus then 45 else 43]) off)
+             (lnD (if minus then 45 else 43) true false false (k + 1)))
+    by (destruct minus, dbl; reflexivity). reflexivity.
+Qed.
+
+(* the default-mode trimming of a trailing e E + - leaves a token that ends in a digit alone *)
+Lemma trim_number_digit q d : digit d = true -> trim_number (q ++ [d]) = q ++ [d].
+Proof.
+  intros Hd. unfold trim_number. rewrite rev_app_distr. cbn [rev app trim_tail_rev].
+  unfold digit in Hd. destruct (rev q) as [|x r] eqn:E.
+  - cbn. apply (f_equal (@rev _)) in E. rewrite rev_involutive in E. subst q. reflexivity.
+  - replace ((d =? 101) || (d =? 69) || (d =? 45) || (d =? 43)) with false by lia.
+    change (rev (d :: x :: r)) with (rev (x :: r) ++ [d]). rewrite <- E, rev_involutive. reflexivity.
+Qed.
+
+Lemma skip_digits_app ds rest : forallb digit ds = true ->
+  skip_digits (ds ++ rest) = skip_digits rest.
+Proof.
+  induction ds as [|c ds IH]; [reflexivity|]. cbn [forallb app skip_digits]. intros H. apply andb_true_iff in H.
+  destruct H as [Hc Hd]. change (TokModel.is_digit c) with (digit c). rewrite Hc. apply IH, Hd.
+Qed.
+Lemma skip_digits_stop c rest : digit c = false -> skip_digits (c :: rest) = c :: rest.
+Proof. intros H. cbn [skip_digits]. change (TokModel.is_digit c) with (digit c). rewrite H. reflexivity. Qed.
+
+(* strtod consumes a whole RFC 8259 number token *)
+Lemma strtod_consumed_num n : num_ok n = true -> strtod_consumed (render_num n) = zlen (render_num n).
+Proof.
+  destruct n as [neg i f e]. intros Hok. apply num_ok_iff in Hok. destruct Hok as (O1 & _ & O3 & O4).
+  destruct (digits1_forall _ O1) as [Hi Hine]. rewrite render_num_eq.
+  (* the part after the integer digits starts with a non-digit or is empty *)
+  set (tail := render_frac f ++ render_exp e).
+  assert (Htail : skip_digits (i ++ tail) = tail).
+  { rewrite (skip_digits_app _ _ Hi). subst tail. destruct f as [fr|]; cbn [render_frac app].
+    - apply skip_digits_stop. reflexivity.
+    - destruct e as [[[up sg] ds]|]; [|reflexivity]. cbn [render_exp]. apply skip_digits_stop. destruct up; reflexivity. }
+  assert (Hexp : forall (fd dt m : Z), 0 < m ->
+     (match render_exp e with
+      | c :: r => if (c =? 101) || (c =? 69)
+                  then let r0 := match r with s :: r' => if (s =? 45) || (s =? 43) then r' else r | [] => [] end in
+                       let r1 := skip_digits r0 in
+                       if zlen r0 - zlen r1 =? 0 then m else m + 1 + (zlen r - zlen r0) + (zlen r0 - zlen r1)
+                  else m
+      | [] => m end) = m + zlen (render_exp e)).
+  { intros fd dt m Hm. destruct e as [[[up sg] ds]|]; [|cbn; lia]. cbn [exp_ok] in O4.
+    destruct (digits1_forall _ O4) as [Hds Hdne]. cbn [render_exp].
+    replace (((if up then 69 else 101) =? 101) || ((if up then 69 else 101) =? 69)) with true by (destruct up; reflexivity).
+    destruct ds as [|d0 ds']; [congruence|]. cbn [forallb] in Hds. apply andb_true_iff in Hds. destruct Hds as [Hd0 Hds'].
+    assert (Hsk : skip_digits (d0 :: ds') = []).
+    { rewrite <- (app_nil_r (d0 :: ds')). rewrite skip_digits_app; [reflexivity|]. cbn [forallb]. rewrite Hd0, Hds'. reflexivity. }
+    unfold digit in Hd0. pose proof (zlen_nonneg ds').
+    destruct sg; cbn [app]; cbv zeta.
+    - replace ((d0 =? 45) || (d0 =? 43)) with false by lia. rewrite Hsk. cbn [zlen]. replace (1 + zlen ds' - 0 =? 0) with false by lia. lia.
+    - cbn [Z.eqb Pos.eqb orb]. rewrite Hsk. cbn [zlen]. replace (1 + zlen ds' - 0 =? 0) with false by lia. lia.
+    - cbn [Z.eqb Pos.eqb orb]. rewrite Hsk. cbn [zlen]. replace (1 + zlen ds' - 0 =? 0) with false by lia. lia. }
+  unfold strtod_consumed.
+  assert (Hl0 : match (if neg then [45] else []) ++ i ++ tail with
+                | c :: r => if (c =? 45) || (c =? 43) then r else (if neg then [45] else []) ++ i ++ tail
+                | [] => [] end = i ++ tail).
+  { destruct neg; cbn [app]; [reflexivity|]. destruct i as [|c0 i']; [congruence|]. cbn [app].
+    cbn [forallb] in Hi. apply andb_true_iff in Hi. destruct Hi as [Hc0 _]. unfold digit in Hc0.
+    replace ((c0 =? 45) || (c0 =? 43)) with false by lia. reflexivity. }
+  rewrite <- app_assoc. fold tail. rewrite Hl0, Htail.
+  pose proof (zlen_nonneg i). assert (0 < zlen i) by (destruct i; [congruence|cbn [zlen]; pose proof (zlen_nonneg i); lia]).
+  pose proof (zlen_nonneg tail).
+  subst tail. destruct f as [fr|]; cbn [render_frac app].
+  - cbn [exp_ok frac_ok] in O3. destruct (digits1_forall _ O3) as [Hfr Hfne].
+    cbn [Z.eqb Pos.eqb]. cbv zeta.
+    assert (Hsk : skip_digits (fr ++ render_exp e) = render_exp e).
+    { rewrite (skip_digits_app _ _ Hfr). destruct e as [[[up sg] ds]|]; [|reflexivity]. cbn [render_exp].
+      apply skip_digits_stop. destruct up; reflexivity. }
+    rewrite Hsk. rewrite !zlen_app. cbn [zlen]. rewrite !zlen_app.
+    pose proof (zlen_nonneg fr). pose proof (zlen_nonneg (render_exp e)).
+    assert (0 < zlen fr) by (destruct fr; [congruence|cbn [zlen]; pose proof (zlen_nonneg fr); lia]).
+    match goal with |- (if ?b then _ else _) = _ => replace b with false by lia end.
+    rewrite (Hexp 0 0) by (destruct neg; cbn [zlen]; lia). destruct neg; cbn [zlen]; lia.
+  - cbn [app]. rewrite !zlen_app. pose proof (zlen_nonneg (render_exp e)).
+    destruct (render_exp e) as [|c r] eqn:Ee.
+    + cbn [zlen]. match goal with |- (if ?b then _ else _) = _ => replace b with false by lia end. destruct neg; cbn [zlen]; lia.
+    + assert (c =? 46 = false).
+      { destruct e as [[[up sg] ds]|]; [|discriminate]. cbn [render_exp] in Ee. injection Ee as <- _. destruct up; reflexivity. }
+      rewrite H3. match goal with |- (if ?b then _ else _) = _ => replace b with false by lia end.
+      rewrite <- Ee. rewrite (Hexp 0 0) by (destruct neg; cbn [zlen]; lia). rewrite Ee. destruct neg; cbn [zlen]; lia.
+Qed.
+
+Lemma classify_dbl p off : strtod_consumed p = zlen p ->
+  classify_number strtod (TnumD true p off) = NumVal (JDouble (strtod p) (Some p)).
+Proof.
+  intros H. unfold classify_number, TnumD. cbn [pb is_double strict negb andb]. rewrite H, Z.eqb_refl. reflexivity.
+Qed.
+
+Local Opaque classify_number strtod_consumed trim_number.
+Lemma run_numD_end p off c0 ex ng ps k q d :
+  p = q ++ [d] -> digit d = true -> strtod_consumed p = zlen p ->
+  run strtod [0] (TnumD true p off) (lnD c0 ex ng ps k) =
+  LOut (mktok [mksrec S_finish S_finish (JDouble (strtod p) (Some p)) None] 32 p true 0 0 0 0 false false false off TE_success)
+       (mkloc 0 0 JNull None).
+Proof.
+  intros Hp Hd Hs. assert (Ht : trim_number p = p) by (rewrite Hp; apply trim_number_digit; exact Hd).
+  rewrite run_cons. unfold TnumD, lnD. cbn [validate_utf8 nbytes lobj lnum].
+  unfold REDO_FUEL. cbn [redo]. unfold step1 at 1. cbn. rewrite andb_false_r. cbn. rewrite Ht. unfold set_pb.
+  cbn [stack max_depth is_double st_pos ucs_char high_surrogate quote_char strict allow_trailing validate_utf8 char_offset err].
+  pose proof (classify_dbl p off Hs) as Hc. unfold TnumD in Hc. rewrite Hc. cbn. reflexivity.
+Qed.
+
+(* a number-state configuration: [dbl] a '.' or exponent was seen, [p] the characters so far,
+   [ex] an exponent marker was seen; no sign is acceptable next *)
+Definition NumSt (dbl : bool) (p : list byte) (ex : bool) (t : tok) (l : locals) : Prop :=
+  exists off c0 k, t = TnumD dbl p off /\ l = lnD c0 ex false false k.
+
+Lemma seg_digits dbl p ex t l ds rest : NumSt dbl p ex t l -> forallb digit ds = true ->
+  exists t' l', NumSt dbl (p ++ ds) ex t' l' /\ run strtod (ds ++ rest) t l = run strtod rest t' l'.
+Proof.
+  intros (off & c0 & k & -> & ->) Hd. destruct ds as [|c ds'].
+  - exists (TnumD dbl p off), (lnD c0 ex false false k). rewrite app_nil_r. split; [exists off, c0, k; split; reflexivity|reflexivity].
+  - destruct (digitsD _ Hd dbl ex false false p off c0 k rest ltac:(discriminate)) as (off' & c0' & k' & Hr).
+    exists (TnumD dbl (p ++ c :: ds') off'), (lnD c0' ex false false k'). split; [exists off', c0', k'; split; reflexivity|exact Hr].
+Qed.
+Lemma seg_frac p t l fr rest : NumSt false p false t l -> digits1 fr = true ->
+  exists t' l', NumSt true (p ++ 46 :: fr) false t' l' /\ run strtod ((46 :: fr) ++ rest) t l = run strtod rest t' l'.
+Proof.
+  intros (off & c0 & k & -> & ->) Hd. destruct (digits1_forall _ Hd) as [Hall Hne]. cbn [app]. rewrite dotD.
+  destruct (digitsD _ Hall true false true true (p ++ [46]) (off + 1) 46 (k + 1) rest Hne) as (off' & c0' & k' & Hr).
+  exists (TnumD true (p ++ 46 :: fr) off'), (lnD c0' false false false k').
+  split; [exists off', c0', k'; split; reflexivity|]. rewrite Hr, <- app_assoc. reflexivity.
+Qed.
+Lemma seg_exp dbl p t l up sg ds rest : NumSt dbl p false t l -> digits1 ds = true ->
+  exists t' l', NumSt true (p ++ render_exp (Some (up, sg, ds))) true t' l' /\
+                run strtod (render_exp (Some (up, sg, ds)) ++ rest) t l = run strtod rest t' l'.
+Proof.
+  intros (off & c0 & k & -> & ->) Hd. destruct (digits1_forall _ Hd) as [Hall Hne]. cbn [render_exp app]. rewrite expD.
+  set (e := if up then 69 else 101).
+  destruct sg; cbn [app].
+  - destruct (digitsD _ Hall true true true true (p ++ [e]) (off + 1) e (k + 1) rest Hne) as (off' & c0' & k' & Hr).
+    exists (TnumD true (p ++ e :: ds) off'), (lnD c0' true false false k').
+    split; [exists off', c0', k'; split; reflexivity|]. rewrite Hr, <- app_assoc. reflexivity.
+  - rewrite (signD false).
+    destruct (digitsD _ Hall true true false false ((p ++ [e]) ++ [43]) (off + 1 + 1) 43 (k + 1 + 1) rest Hne) as (off' & c0' & k' & Hr).
+    exists (TnumD true (p ++ e :: 43 :: ds) off'), (lnD c0' true false false k').
+    split; [exists off', c0', k'; split; reflexivity|]. rewrite Hr, <- !app_assoc. reflexivity.
+  - rewrite (signD true).
+    destruct (digitsD _ Hall true true false false ((p ++ [e]) ++ [45]) (off + 1 + 1) 45 (k + 1 + 1) rest Hne) as (off' & c0' & k' & Hr).
+    exists (TnumD true (p ++ e :: 45 :: ds) off'), (lnD c0' true false false k').
+    split; [exists off', c0', k'; split; reflexivity|]. rewrite Hr, <- !app_assoc. reflexivity.
+Qed.
+(* the sign and the integer digits, from the fresh tokener *)
+Lemma seg_int (neg : bool) i rest : digits1 i = true ->
+  exists t' l', NumSt false ((if neg then [45] else []) ++ i) false t' l' /\
+                run strtod (((if neg then [45] else []) ++ i) ++ rest) T0 L0 = run strtod rest t' l'.
+Proof.
+  intros Hd. destruct (digits1_forall _ Hd) as [Hall Hne]. destruct neg; cbn [app].
+  - rewrite first_minus.
+    apply (seg_digits false [45] false (Tnum [45] 1) (ln 45 1) i rest); [exists 1, 45, 1; split; reflexivity|exact Hall].
+  - destruct i as [|c i']; [congruence|]. cbn [forallb] in Hall. apply andb_true_iff in Hall. destruct Hall as [Hc Hall'].
+    unfold digit in Hc. cbn [app]. rewrite first_digit by lia.
+    apply (seg_digits false [c] false (Tnum [c] 1) (ln c 1) i' rest); [exists 1, c, 1; split; reflexivity|exact Hall'].
+Qed.
+
+Lemma digits_last ds : forallb digit ds = true -> ds <> [] -> exists q d, ds = q ++ [d] /\ digit d = true.
+Proof.
+  intros H Hne. destruct (exists_last Hne) as (q & d & ->). exists q, d. split; [reflexivity|].
+  rewrite forallb_app in H. apply andb_true_iff in H. destruct H as [_ H]. cbn in H. rewrite andb_true_r in H. exact H.
+Qed.
+
+Lemma num_no_nul n : num_ok n = true -> SerModel.has_byte 0 (render_num n) = false.
+Proof.
+  destruct n as [neg i f e]. intros H. apply num_ok_iff in H. destruct H as (O1 & _ & O3 & O4).
+  destruct (digits1_forall _ O1) as [Hi _]. rewrite render_num_eq, !has_byte_app, (digits_no_byte 0 i Hi eq_refl).
+  replace (SerModel.has_byte 0 (if neg then [45] else [])) with false by (destruct neg; reflexivity).
+  rewrite (no_byte_exp 0 e eq_refl) by first [lia | destruct e as [[[? ?] ?]|]; [exact O4|exact I]].
+  destruct f as [fr|]; [|reflexivity]. destruct (digits1_forall _ O3) as [Hf _]. cbn [render_frac SerModel.has_byte].
+  rewrite (digits_no_byte 0 fr Hf eq_refl). reflexivity.
+Qed.
+
+(* json-c parses an RFC 8259 number token that has a fraction or an exponent into a double node
+   holding strtod's value and the token as retained text *)
+Lemma parse_num_token n : num_ok n = true -> (n_frac n <> None \/ n_exp n <> None) ->
+  exists t', parse_ex_cstr strtod T0 (render_num n) =
+             PR t' (Some (JDouble (strtod (render_num n)) (Some (render_num n)))) /\ err t' = TE_success.
+Proof.
+  intros Hok Hdbl. pose proof (strtod_consumed_num n Hok) as Hcons. pose proof (num_no_nul n Hok) as Hnul.
+  destruct n as [neg i f e]. pose proof Hok as Hok'. apply num_ok_iff in Hok'. destruct Hok' as (O1 & _ & O3 & O4).
+  cbn [n_frac n_exp] in Hdbl.
+  unfold parse_ex_cstr, parse_ex. rewrite (upto_nul_clean _ Hnul).
+  change (set_err (set_off T0 0) TE_success) with T0. fold L0.
+  set (text := render_num (mknum neg i f e)) in *.
+  assert (Htext : text = ((if neg then [45] else []) ++ i) ++ render_frac f ++ render_exp e) by apply render_num_eq.
+  (* the last character is a digit *)
+  assert (Hlast : exists q d, text = q ++ [d] /\ digit d = true).
+  { rewrite Htext. destruct e as [[[up sg] ds]|].
+    - cbn [exp_ok] in O4. destruct (digits1_forall _ O4) as [Hds Hne]. destruct (digits_last ds Hds Hne) as (q & d & -> & Hd).
+      set (sgn := match sg with ENone => [] | EPlus => [43] | EMinus => [45] end : list byte).
+      assert (Hre : render_exp (Some (up, sg, q ++ [d])) = (((if up then 69 else 101) :: sgn) ++ q) ++ [d]).
+      { cbn [render_exp app]. fold sgn. rewrite app_assoc. reflexivity. }
+      rewrite Hre. exists ((((if neg then [45] else []) ++ i) ++ render_frac f ++ ((if up then 69 else 101) :: sgn) ++ q)), d.
+      split; [|exact Hd]. rewrite <- !app_assoc. reflexivity.
+    - destruct f as [fr|]; [|destruct Hdbl; congruence]. cbn [frac_ok] in O3. destruct (digits1_forall _ O3) as [Hfr Hne].
+      destruct (digits_last fr Hfr Hne) as (q & d & -> & Hd).
+      exists (((if neg then [45] else []) ++ i) ++ 46 :: q), d. split; [|exact Hd].
+      cbn [render_frac render_exp]. rewrite app_nil_r, <- !app_assoc. reflexivity. }
+  destruct Hlast as (q & d & Hq & Hd).
+  (* run to the end of the token *)
+  assert (Hrun : exists t' l', NumSt true text (match e with Some _ => true | None => false end) t' l' /\
+                               run strtod ((((if neg then [45] else []) ++ i) ++ render_frac f ++ render_exp e) ++ [0]) T0 L0
+                               = run strtod [0] t' l').
+  { rewrite <- !app_assoc.
+    destruct (seg_int neg i (render_frac f ++ render_exp e ++ [0]) O1) as (t1 & l1 & S1 & R1).
+    rewrite <- app_assoc in R1. rewrite R1.
+    destruct f as [fr|]; cbn [render_frac] in *.
+    - destruct (seg_frac _ t1 l1 fr (render_exp e ++ [0]) S1 O3) as (t2 & l2 & S2 & R2).
+      rewrite R2.
+      destruct e as [[[up sg] ds]|].
+      + destruct (seg_exp _ _ t2 l2 up sg ds [0] S2 O4) as (t3 & l3 & S3 & R3). rewrite R3.
+        exists t3, l3. split; [|reflexivity]. rewrite Htext. cbn [render_frac]. rewrite <- app_assoc in S3. cbn [app] in S3. exact S3.
+      + exists t2, l2. split; [|reflexivity]. rewrite Htext. cbn [render_frac render_exp]. rewrite app_nil_r. exact S2.
+    - destruct e as [[[up sg] ds]|]; [|destruct Hdbl; congruence]. cbn [app].
+      destruct (seg_exp _ _ t1 l1 up sg ds [0] S1 O4) as (t3 & l3 & S3 & R3). rewrite R3.
+      exists t3, l3. split; [|reflexivity]. rewrite Htext. exact S3. }
+  destruct Hrun as (t' & l' & (off & c0 & k & -> & ->) & Hr).
+  replace (run strtod (text ++ [0]) T0 L0) with (run strtod [0] (TnumD true text off) (lnD c0 (match e with Some _ => true | None => false end) false false k))
+    by (rewrite <- Hr, Htext; reflexivity).
+  rewrite (run_numD_end text off c0 _ false false k q d Hq Hd Hcons).
+  eexists. split; reflexivity.
+Qed.
+End RunD.
+End RT2.
+
 (* ---------------- the round trip, scalar trees ---------------- *)
+Lemma c_str_clean t : SerModel.has_byte 0 t = false -> c_str t = t.
+Proof.
+  induction t as [|c t IH]; [reflexivity|]. cbn [SerModel.has_byte c_str]. intros H. apply orb_false_iff in H.
+  destruct H as [H1 H2]. rewrite H1, (IH H2). reflexivity.
+Qed.
+Lemma dval_eqb_finite bits : dbl_finite bits = true ->
+  EqModel.dval_eqb (EqModel.d_decode bits) (EqModel.d_decode bits) = true.
+Proof.
+  unfold dbl_finite, dbl_exp, EqModel.d_decode, EqModel.d_exp. intros H. apply negb_true_iff in H.
+  change EqModel.two52 with two52. rewrite H.
+  destruct ((((bits / two52) mod 2048 =? 0) && (EqModel.d_man bits =? 0))); cbn [EqModel.dval_eqb]; [reflexivity|].
+  rewrite !Z.eqb_refl. destruct (EqModel.d_sign bits =? 1); reflexivity.
+Qed.
+
 Section RoundTripScalars.
 Variable fmt17 : Z -> list byte.
 Variable strtod : list byte -> Z.
@@ -1429,21 +1728,32 @@ Lemma reparse_intro text v t' :
   reparse strtod text = Some v.
 Proof. intros H1 H2. unfold reparse. change (TokModel.tok_new 32 false false false) with (Some RT.T0). cbv beta iota. rewrite H1, H2. reflexivity. Qed.
 
-(* the trees covered: a scalar other than a double, with its C range *)
-Definition scalar_ok (v : jv) : Prop :=
+(* the trees covered: a scalar, with its C range.  For a double: finite, the NOZERO guard, and the
+   hypothesis on the strtod oracle that it reads the emitted token back as the double (what
+   [double_reads_back] reduces to the 17-digit round trip); a retained text must be a number
+   token with a fraction or an exponent (else json-c re-parses it as an integer node) that
+   strtod reads as the double *)
+Definition scalar_ok (fl : sflags) (v : jv) : Prop :=
   match v with
   | JNull | JBool _ => True
   | JInt z => INT64_MIN <= z <= INT64_MAX
   | JUint z => 0 <= z <= UINT64_MAX
   | JStr s => Forall byte_ok s
+  | JDouble bits None =>
+      dbl_finite bits = true /\ (nozero fl = false \/ has_byte 101 (fmt17 bits) = false) /\
+      strtod (double_fixup flags_plain (fmt17 bits)) = bits
+  | JDouble bits (Some t) =>
+      dbl_finite bits = true /\
+      exists n, num_ok n = true /\ render_num n = c_str t /\ (n_frac n <> None \/ n_exp n <> None) /\ strtod (c_str t) = bits
   | _ => False
   end.
 
 (* parse (serialize f v) = v' with v' json_object_equal to v, and serialize f v' = serialize f v: proved
-   for every flag word without COLOR and every scalar tree other than a double (all int64, all
-   uint64, all byte strings).  Doubles and containers are not proved here: see
+   for every flag word without COLOR and every scalar tree: all int64, all uint64, all byte strings,
+   all finite doubles (under the oracle hypotheses).  Containers are not proved here: see
    [roundtrip_examples] and the correspondence stream. *)
-Theorem roundtrip_scalars_partial fl v : color fl = false -> scalar_ok v -> roundtrip_ok fmt17 strtod fl v.
+Theorem roundtrip_scalars_partial (Hfmt : fmt17_ok fmt17) fl v :
+  color fl = false -> scalar_ok fl v -> roundtrip_ok fmt17 strtod fl v.
 Proof.
   intros Hc Hv. destruct v as [|b|z|z|bits t|s|l|l]; cbn [scalar_ok] in Hv; try contradiction.
   - exists JNull. split; [vm_compute; reflexivity|split; reflexivity].
@@ -1460,6 +1770,24 @@ Proof.
       * replace (z <? 0) with false by lia. unfold UINT64_MAX in Hv. unfold EqModel.two64. rewrite Z.mod_small by lia. apply Z.eqb_refl.
       * apply Z.eqb_refl.
     + destruct (z <=? INT64_MAX); cbn [serialize]; [|reflexivity]. unfold dec_s. replace (z <? 0) with false by lia. reflexivity.
+  - destruct t as [t|].
+    + (* retained text: emitted verbatim *)
+      destruct Hv as (Hfin & n & Hok & Hr & Hd & Hs).
+      destruct (RT2.parse_num_token strtod n Hok Hd) as (t' & H1 & H2). rewrite Hr, Hs in H1.
+      exists (JDouble bits (Some (c_str t))). cbn [serialize]. split; [|split].
+      * apply (reparse_intro _ _ t'); assumption.
+      * cbn [EqModel.jv_equal]. apply dval_eqb_finite, Hfin.
+      * apply c_str_clean. rewrite <- Hr. apply RT2.num_no_nul, Hok.
+    + destruct Hv as (Hfin & Hnz & Hs). destruct (Hfmt bits Hfin) as (n0 & Hshape & Hr0).
+      unfold roundtrip_ok. cbn [serialize]. rewrite double_text_finite by exact Hfin. rewrite <- Hr0 in *.
+      rewrite (double_fixup_flags fl n0 Hshape Hnz).
+      destruct (double_fixup_shape flags_plain n0 Hshape) as (n' & Hok & Hr & _ & Hd); [left; reflexivity|].
+      rewrite <- Hr in *.
+      destruct (RT2.parse_num_token strtod n' Hok Hd) as (t' & H1 & H2). rewrite Hs in H1.
+      exists (JDouble bits (Some (render_num n'))). split; [|split].
+      * apply (reparse_intro _ _ t'); assumption.
+      * cbn [EqModel.jv_equal]. apply dval_eqb_finite, Hfin.
+      * cbn [serialize]. apply c_str_clean, RT2.num_no_nul, Hok.
   - destruct (RT.parse_string strtod fl s Hv) as (t' & H1 & H2). exists (JStr s). cbn [serialize].
     rewrite colored_nocolor by exact Hc. split; [|split].
     + apply (reparse_intro _ _ t'); assumption.
